@@ -269,7 +269,33 @@ def _repair_functor_decl(text, kinds):
 def _repair_override(text, kinds):
     return re.sub(r"^\.([A-Za-z_?][\w?]*(?:,[A-Za-z_?][\w?]*)*)$", lambda m: "\n".join(".override " + r for r in m.group(1).split(",")), text, flags=re.M)
 
-REPAIRS = [(set(OP_REPAIR), _repair_ops), ({"pragma:key", "pragma:key-value"}, _repair_pragma),
+def _repair_negated_call(text, kinds):
+    if "constraint:not-match" in kinds:
+        text = re.sub(r"\bnot_match\(", "!match(", text)
+    if "constraint:not-contains" in kinds:
+        text = re.sub(r"\bnot_contains\(", "!contains(", text)
+    return text
+
+def _repair_io_qualifier(text, kinds):
+    """a deprecated qualifier is printed both as the qualifier and as the directive it stands for: drop that directive"""
+    for w in ("input", "output", "printsize"):
+        if "decl:qualifier-" + w not in kinds:
+            continue
+        for m in re.finditer(r"^\.decl ([\w?.]+)\([^()]*\)([^\n]*)$", text, flags=re.M):
+            if re.search(r"\b%s\b" % w, m.group(2)):
+                text = re.sub(r"^\.%s %s\n\n?" % (w, re.escape(m.group(1))), "", text, count=1, flags=re.M)
+    return text
+
+def _repair_subsumption(text, kinds):
+    return re.sub(r"@var\d+(?!\w|\()", "_", text)
+
+def _repair_delta(text, kinds):
+    return re.sub(r"^\.decl ([\w?.]+)\(\)(.*?) delta_debug\(([\w?.]+)\)", r".decl \1 = debug_delta(\3)\2", text, flags=re.M)
+
+REPAIRS = [(set(OP_REPAIR), _repair_ops),
+           ({"constraint:not-match", "constraint:not-contains"}, _repair_negated_call),
+           ({"decl:qualifier-input", "decl:qualifier-output", "decl:qualifier-printsize"}, _repair_io_qualifier),
+           ({"clause:subsumption-unnamed-variables"}, _repair_subsumption), ({"decl:debug_delta"}, _repair_delta), ({"pragma:key", "pragma:key-value"}, _repair_pragma),
            ({"functor-decl:unnamed-parameters"}, _repair_functor_decl), ({"component:override"}, _repair_override)]
 REPAIRABLE = set().union(*[ks for ks, _ in REPAIRS])
 
